@@ -24,6 +24,25 @@ type cpuRig struct {
 	am   *mem.Image // image behind the alternative CPU
 }
 
+// segDev is one of the 2^20 devices that together map the whole 16 MiB: like a memory.RAM sized to
+// its own range it serves only the 16 bytes of its segment, and fails when handed another address.
+type segDev struct {
+	seg uint32
+	g   *cpuRig
+}
+
+func (d *segDev) check(a uint32) {
+	if a>>4 != d.seg {
+		panic(fmt.Errorf("device of segment $%05x was handed address $%06x (index out of its range)", d.seg, a))
+	}
+}
+func (d *segDev) Read(a uint32) byte     { d.check(a); return d.g.bm.M.RdAddr(a) }
+func (d *segDev) Write(a uint32, v byte) { d.check(a); d.g.bm.M.WrAddr(a, v) }
+func (d *segDev) Shutdown()              {}
+func (d *segDev) Size() uint32           { return 16 }
+func (d *segDev) Clear()                 {}
+func (d *segDev) Dump(uint32) []byte     { return nil }
+
 func newRig() *cpuRig {
 	g := &cpuRig{bm: &mem.BusMem{}}
 	if altFirst {
@@ -31,15 +50,33 @@ func newRig() *cpuRig {
 		g.alt.Init()
 	}
 	g.bus, _ = bus.New()
-	if err := g.bus.Attach(g.bm, "all", 0, 0xFFFFFF); err != nil {
-		panic(err)
+	// the whole bus is mapped, by one device per 16-byte segment
+	devs := make([]segDev, 1<<20)
+	for i := range devs {
+		devs[i] = segDev{uint32(i), g}
+		if err := g.bus.Attach(&devs[i], "seg", uint32(i)<<4, uint32(i)<<4|15); err != nil {
+			panic(err)
+		}
 	}
 	if !altFirst {
 		g.alt = new(cpualt.CPU)
 		g.alt.Init()
 	}
-	g.alt.Bus.AttachReader(0, 0xFFFFFF, func(a uint32) uint8 { return g.am.RdAddr(a) })
-	g.alt.Bus.AttachWriter(0, 0xFFFFFF, func(a uint32, v uint8) { g.am.WrAddr(a, v) })
+	for i := uint32(0); i < 1<<20; i++ {
+		seg := i
+		g.alt.Bus.AttachReader(seg<<4, seg<<4|15, func(a uint32) uint8 {
+			if a>>4 != seg {
+				panic(fmt.Errorf("reader of segment $%05x was handed address $%06x", seg, a))
+			}
+			return g.am.RdAddr(a)
+		})
+		g.alt.Bus.AttachWriter(seg<<4, seg<<4|15, func(a uint32, v uint8) {
+			if a>>4 != seg {
+				panic(fmt.Errorf("writer of segment $%05x was handed address $%06x", seg, a))
+			}
+			g.am.WrAddr(a, v)
+		})
+	}
 	return g
 }
 
